@@ -31,7 +31,7 @@ TAIL='''
 // word/media/image<m>.<anything> of the opened package (C10: mediaFresh, zz_contracts_verif_image.go), whatever
 // other names the package uses for its media.
 //@ func (*Document).updateNextImageID
-//@ props C06, C10
+//@ props C06, C10, C04
 //@ requires d != nil
 //@ modifies Document.nextImageID
 //@ ensures d.nextImageID >= 0
